@@ -38,6 +38,12 @@ MC_CONSTS = {
     # one node name, no symbols: deeper nesting and a count of 3 (third-copy and node-0 anchor defects lived here)
     "quick_mult_deep": dict(MaxLen=9, NodeToks="Nodes1", SymToks="NoSym", RingToks="NoRings",
                             MultCounts="Mult3", MaxDepth=2, MaxOpen=1, EmitAll="FALSE"),
+    # nesting together with an order symbol in front of the branch multiplier ( ...))=|2 )
+    "quick_mult_deepsym": dict(MaxLen=9, NodeToks="Nodes1", SymToks="SymOne", RingToks="NoRings",
+                               MultCounts="Mult2", MaxDepth=2, MaxOpen=1, EmitAll="FALSE"),
+    # multiplier counts with two digits
+    "quick_mult_big": dict(MaxLen=6, NodeToks="Nodes1", SymToks="SymOne", RingToks="NoRings",
+                           MultCounts="Mult10", MaxDepth=1, MaxOpen=1, EmitAll="FALSE"),
     "thorough_mult": dict(MaxLen=8, NodeToks="Nodes2", SymToks="SymQuick", RingToks="Rings1",
                           MultCounts="Mult13", MaxDepth=2, MaxOpen=1, EmitAll="FALSE"),
     "quick_fault": dict(MaxLen=4, NodeToks="NodesF", SymToks="SymOne", RingToks="Rings2",
@@ -273,7 +279,9 @@ def run_c05(tier):
     toks, r = mc_run(check, key)
     deep, r2 = mc_run(check, "quick_mult_deep")
     nest3, r3 = mc_run(check, "quick_mult_nest3", invariants=False)
-    toks = toks + deep + nest3
+    deepsym, r4 = mc_run(check, "quick_mult_deepsym", invariants=False)
+    big, r5 = mc_run(check, "quick_mult_big", invariants=False)
+    toks = toks + deep + nest3 + deepsym + big
     check.exhaustive = True
     nsim = 200 if tier == "quick" else 2000
     sim, _ = mc_run(check, "sim_mult", invariants=False, simulate=f"num={nsim}", depth=24, seed=common.SEED + 2)
